@@ -7,11 +7,17 @@ guarded against self-edges; the frame queues start from BlockStart; after the lo
 set are linked to BlockEnd; a leading classical instruction is linked from BlockStart; the empty block is linked.
 Hence every edge points forward (BlockStart < instructions in order < BlockEnd) and the graph is acyclic.
 Not decided: reachability for RF instructions that match no frame; graph contents."""
-from qv.engine import callee_path, fn_expr_operand, expr_calls
+from qv.engine import callee_path, fn_expr_operand, expr_calls, walk_expr
 from qv.props import sched
 from qv.props.common import aggregates
 from qv.report import Result
 from qv.rules.guards import root
+
+
+def _nodes22(e):
+    out = []
+    walk_expr(e, out.append)
+    return out
 
 
 def run(ctx):
@@ -94,6 +100,75 @@ def run(ctx):
     res.site(key, True, {"memory_edge_sites": len(mem), "verdict": "ok" if ok and mem else "VIOLATION"})
     if not (ok and mem):
         res.find(key, f.loc(), "memory-dependency edges are not guarded by `dependency.node_id != node`: an instruction that reads and writes one region gets an edge to itself", "`ADD a 1` (reads and writes a): self-loop, the graph is not a DAG")
+    # a classical instruction gets its BlockStart edge exactly when no memory edge was drawn into it: the flag that guards
+    # the BlockStart -> node edge is cleared where (and only under the same self-edge guard as) the memory edge is added,
+    # or is computed from that comparison.  Deriving it from "the dependency list is empty" is wrong: an in-place update
+    # (ADD x 1) lists itself, the self-dependency is filtered out, and the node ends up without any incoming edge.
+    key = "K7|classical-start-edge-iff-no-incoming"
+    starts = [s_ for s_ in sites if s_[2] == "BlockStart" and isinstance(s_[3], tuple) and s_[3][0] == "loop"]
+    ok = False
+    detail = {"start_edge_sites": len(starts)}
+    if len(starts) == 1 and mem:
+        sbb = starts[0][0]
+        guard_switches = set()
+        for (mbb, line, sc, tc, kinds, se, t) in mem:
+            for sb, tgt in f.control_deps(mbb, transitive=True):
+                tt = f.blocks[sb]["t"]
+                if tt["k"] == "switch":
+                    e = fn_expr_operand(f, tt["d"])
+                    if e[0] == "call" and e[1].rsplit("::", 1)[-1] in ("ne", "eq"):
+                        guard_switches.add(sb)
+        # climb the control dependences of the edge site (through the `edge already present?` test of add_dependency!)
+        # to the nearest switch on a boolean local
+        flag_sw = []
+        frontier, seen_sw = [sbb], set()
+        while frontier and not flag_sw:
+            nxt = []
+            for b_ in frontier:
+                for sb, tgt in sorted(f.control_deps(b_, transitive=False)):
+                    if sb in seen_sw:
+                        continue
+                    seen_sw.add(sb)
+                    tt = f.blocks[sb]["t"]
+                    if tt["k"] != "switch":
+                        continue
+                    pl = tt["d"].get("m") or tt["d"].get("c")
+                    e = fn_expr_operand(f, tt["d"])
+                    if pl and not pl["pr"] and f.local_ty(pl["l"])["s"] == "bool" and e[0] != "call":
+                        flag_sw.append((sb, pl["l"], e))
+                    else:
+                        nxt.append(sb)
+            frontier = nxt
+        detail["flag_switches"] = len(flag_sw)
+        if len(flag_sw) == 1:
+            sb, fl, e = flag_sw[0]
+            # (i) cleared under the self-edge guard
+            chain = f.backward_slice([fl], through_calls=False) if hasattr(f, "backward_slice") else [fl]
+            cleared_under_guard = False
+            set_true = False
+            for i, j, st in f.stmts():
+                if st["k"] == "assign" and st["p"]["l"] in chain and not st["p"]["pr"] and st["rv"]["k"] == "use" and "k" in st["rv"]["o"]:
+                    val = st["rv"]["o"]["k"].get("s")
+                    if val == "true":
+                        set_true = True
+                    if val == "false":
+                        deps = {x[0] for x in f.control_deps(i, transitive=True)}
+                        if deps & guard_switches:
+                            cleared_under_guard = True
+            # (ii) computed from the comparison
+            hit = []
+            walk_expr(e, lambda n: hit.append(1) if (n[0] == "call" and n[1].rsplit("::", 1)[-1] in ("ne", "eq")) else None)
+            clo_cmp = False
+            for n_ in _nodes22(e):
+                if n_[0] == "closure":
+                    for g in db.by_path.get(n_[1], []):
+                        if any(c and c.get("name") in ("ne", "eq") for bb, t, c in g.calls()):
+                            clo_cmp = True
+            ok = (set_true and cleared_under_guard) or bool(hit) or clo_cmp
+            detail.update({"initialised_true": set_true, "cleared_under_self_edge_guard": cleared_under_guard, "computed_from_comparison": bool(hit) or clo_cmp})
+    res.site(key, True, dict(detail, verdict="ok" if ok else "VIOLATION"))
+    if not ok:
+        res.find(key, f.loc(), "the BlockStart edge of a classical instruction is not decided by whether a memory edge was actually drawn into it (%s)" % detail, "`SUB x 1` as the first instruction of a block to touch x: it lists itself as a dependency, gets neither a memory edge nor the BlockStart edge, and is unreachable from the block start")
     # frame queues start from BlockStart
     iw = [g for g in db.fns if g.name == "initial_writer" and "InstructionFrameInteraction" in (g.impl_self_path() or "")]
     key = "K8|frame-initial-writer"
